@@ -48,6 +48,9 @@ fn rule_next(spec: &AirSpec, p: u128, w_n: &dyn Fn(usize) -> u128, row: &[u128],
         Rule::Rot { order } => mulm(row[col], w_n(order), p),
         Rule::FibA => row[col + 1],
         Rule::FibB => addm(row[col - 1], row[col], p),
+        Rule::FibC => addm(row[col], row[col + 1], p),
+        // b' = b + a' with a' = a + b (only used to GENERATE traces; validity uses the actual next row)
+        Rule::FibD => addm(row[col], addm(row[col - 1], row[col], p), p),
     }
 }
 
@@ -115,7 +118,12 @@ pub fn main_valid<B: Fld>(spec: &AirSpec, cols: &[Vec<u128>], values: &[Vec<u128
     for step in 0..n - spec.exemptions {
         let row: Vec<u128> = cols.iter().map(|c| c[step]).collect();
         for c in 0..spec.width() {
-            if cols[c][step + 1] != rule_next(spec, p, &root, &row, step, c) {
+            let want = match spec.rules[c] {
+                // the constraint as the AIR states it: b' = b + a' with the ACTUAL next value of the first column
+                Rule::FibD => addm(row[c], cols[c - 1][step + 1], p),
+                _ => rule_next(spec, p, &root, &row, step, c),
+            };
+            if cols[c][step + 1] != want {
                 return Err(format!("transition constraint of column {c} violated at step {step}"));
             }
         }
